@@ -169,6 +169,10 @@ func OddLiteralPrograms() []Prog {
 		// hand-written strategies and arity diagnostics that echo an argument's source text
 		"aq = [1]\naq.slice(" + ml + ")\naq.slice(0, " + ml + ")\ndef oq(a)\n  a\nend\noq(1, " + ml + ")\naq.first(" + ml + ", " + ml + ")\n1.dup(" + ml + ")\n",
 		"class Kq\n  attr_reader " + ml,
+		// shapes whose reporting code reaches an internal error on the unchanged tree (anonymous splat, a bare word
+		// among attr symbols, an empty string receiver): they must stay diagnostics in every mode
+		"def logq(*)\n  1\nend\nlogq(1, 2)\ndef kwq(**)\n  2\nend\nkwq(a: 1)\n",
+		"module Modq\nend\nclass Kq\n  include Modq\n  extend Modq\n  attr_reader :a, b\n  attr_accessor c, :d\nend\n\"\".\n\"\".zork\nKq.new.a\n",
 		"xq = {}\nxq[" + ml + "] = 1\nxq.zork(" + ml + " => 1)\nputs " + ml + ".zork\nyq = \"a\" + " + ml + " + 1\n",
 	}
 	var out []Prog
